@@ -19,12 +19,15 @@ import (
 // engine "agg": the aggregation process under a virtual clock (properties C05, C06, C07)
 //   agg new <activeMs> <inactiveMs>
 //   agg rec <key> <flowType> <corr> <start> <end> <reason> <tcpStateHex> <stats> [p<n>]   -> ok | err
+//       (<corr> = the 12 correlate-field values in the order of corrFields; the token `~` at a position = the record
+//       does NOT carry that element, as a record of an exporter whose template lacks the field)
 //   agg msg <rec_1> + <rec_2> + ... + <rec_k> [p<n>]                               -> ok | err
 //       (<rec_i> = the arguments of `agg rec` without p<n>; keys of one address family.) The k records travel the
 //       production path: a template set and ONE data set holding all of them are encoded by the library's exporter
 //       code, decoded by a collecting process (decodePacket / decodeDataSet), and the decoded data message is what
 //       AggregateMsgByFlowKey gets - so the aggregation appends its statistics elements to the element slices
-//       the collector allocated. `agg rec` hands over one hand-built record instead.
+//       the collector allocated. `agg rec` hands over one hand-built record instead. All records of a message share
+//       the template, so they must lack the same correlate fields (`~` at the same positions), else bad-op.
 //   agg adv <ms>
 //   agg scan <failkeys|-> <reset 0|1>      -> cb <k>=<dump>;... <ok|fail>
 //   agg dump                               -> <k>=<dump>;...
@@ -95,6 +98,22 @@ func regIE(name string) *entities.InfoElement {
 	panic("no element " + name)
 }
 
+// the value token of a correlate field the record does not carry
+const aggAbsent = "~"
+
+// absentMask: which correlate fields the record with the correlate token `corr` lacks, as a string of 0 / 1
+func absentMask(corr string) string {
+	var b []byte
+	for _, t := range strings.Split(corr, ",") {
+		if t == aggAbsent {
+			b = append(b, '1')
+		} else {
+			b = append(b, '0')
+		}
+	}
+	return string(b)
+}
+
 // aggElems builds the elements of one record (the 8 arguments of `agg rec`); v6 = the key is an IPv6 5-tuple
 func aggElems(a []string) (out []entities.InfoElementWithValue, v6 bool, err error) {
 	k, err := strconv.Atoi(a[0])
@@ -136,6 +155,9 @@ func aggElems(a []string) (out []entities.InfoElementWithValue, v6 bool, err err
 	}
 	es = append(es, entities.NewUnsigned8InfoElement(regIE("flowType"), uint8(ft)))
 	for i, name := range corrFields {
+		if corr[i] == aggAbsent {
+			continue // the record's template has no such field
+		}
 		ie := regIE(name)
 		e, err := mkElem(ie, corr[i])
 		if err != nil {
@@ -197,7 +219,7 @@ func aggDump(rec *intermediate.AggregationFlowRecord) string {
 	for _, n := range corrFields {
 		e, _, ok := r.GetInfoElementWithValue(n)
 		if !ok {
-			corr = append(corr, "?")
+			corr = append(corr, aggAbsent) // the stored record has no such field
 		} else {
 			corr = append(corr, valueToken(e))
 		}
@@ -233,6 +255,7 @@ func aggMsg(a []string) string {
 	}
 	var recs [][]entities.InfoElementWithValue
 	family := false
+	mask := ""
 	for len(a) > 0 {
 		if len(a) < 8 || (len(a) > 8 && a[8] != "+") || len(a) == 9 {
 			return "bad-op"
@@ -241,10 +264,11 @@ func aggMsg(a []string) string {
 		if err != nil {
 			return "bad-op"
 		}
-		if len(recs) > 0 && v6 != family {
+		if len(recs) > 0 && (v6 != family || absentMask(a[2]) != mask) {
 			return "bad-op" // the records of a data set share one template
 		}
 		family = v6
+		mask = absentMask(a[2])
 		if perm >= 0 {
 			// one element order for the whole message (the same seed gives every record the same permutation)
 			rand.New(rand.NewSource(perm)).Shuffle(len(es), func(i, j int) { es[i], es[j] = es[j], es[i] })
